@@ -1484,3 +1484,10 @@ int main(int argc, char** argv)
   }
   return batch(a, prof);
 }
+
+#ifdef SIM_ASAN
+// Classify sanitizer hits: a report ends the child with exit code 77 (crash:sanitizer); leak checking would flood
+// (every run is abandoned with threads parked), so it is off.
+extern "C" __attribute__((used)) char const* __asan_default_options() { return "exitcode=77:detect_leaks=0:abort_on_error=0"; }
+extern "C" __attribute__((used)) char const* __ubsan_default_options() { return "halt_on_error=1:exitcode=77:print_stacktrace=0"; }
+#endif
